@@ -15,6 +15,10 @@ Skeleton = nested lists of nodes; a node is a tuple:
   ("switch", i, [case bodies], default|None, breaks) d[i] in {0..len(cases)}
   ("func", body)                  nested function declaration followed by a call of it
   ("class",)                      nested class declaration with one method
+
+Renderers: Python, JavaScript, TypeScript (the JavaScript text), Java, C (own ground-truth engines), PHP and Go (no runtime
+in the sandbox: same const() order and same meaning as the JavaScript rendering, which supplies the ground truth).
+LANG_KINDS names, per language, the node kinds it can express (Builder/systematic_skeletons `only`).
 """
 import itertools
 import random
@@ -120,11 +124,18 @@ def random_skeleton(seed, lang, max_depth=3, only=None, loop_dom=(0, 1, 2)):
     return Skel(body, b.domains, f"rand{seed}"), b.pairs
 
 
-def systematic_skeletons(lang):
-    """Every (outer, inner) nesting at depth 2 in three positions (alone / leading simple / trailing simple)."""
+SYS_KIND = {"else": "if", "except": "try", "finally": "try", "ifelse": "if", "emptyif": "if", "tryfin": "try", "switchnd": "switch"}
+
+
+def systematic_skeletons(lang, only=None):
+    """Every (outer, inner) nesting at depth 2 in three positions (alone / leading simple / trailing simple).
+    `only`: optional whitelist of node kinds (same meaning as for Builder): nestings that need another kind are left out."""
     outers = ["if", "else", "while", "for", "forin", "try", "except", "finally", "switch", "func"] + (["dowhile"] if lang != "python" else [])
     inners = ["s", "if", "ifelse", "while", "for", "forin", "break", "continue", "return", "try", "tryfin", "switch", "switchnd", "func", "class"] + \
              (["dowhile", "emptyif"] if lang != "python" else [])
+    if only is not None:
+        outers = [o for o in outers if SYS_KIND.get(o, o) in only]
+        inners = [i for i in inners if SYS_KIND.get(i, i) in only]
     out = []
     for o in outers:
         for inn in inners:
@@ -625,5 +636,280 @@ class CRenderer(JavaRenderer):
         return "\n".join(self.lines) + "\n"
 
 
-RENDERERS = {"python": PyRenderer, "javascript": JsRenderer, "java": JavaRenderer, "c": CRenderer}
-DU_RENDERERS = {"python": PyDuRenderer, "javascript": JsDuRenderer}
+# ------------------------------------------------------------------------------------------------ frontends without a runtime here
+# The ground truth of an execution of these renderings is node's result on the JavaScript rendering (JsRenderer) of the
+# *same skeleton with the same decision vector*: the renderers below call const() in exactly the order JsRenderer does
+# and only produce shapes whose meaning in the target language is the meaning of the JavaScript text.
+class TsRenderer(JsRenderer):
+    """The JavaScript rendering is valid TypeScript: same text, `.ts`."""
+    ext = "ts"
+    lang = "typescript"
+
+
+class TsDuRenderer(JsDuRenderer):
+    ext = "ts"
+    lang = "typescript"
+
+
+class PhpRenderer(JsRenderer):
+    ext = "php"
+    lang = "php"
+    twin = "javascript"
+
+    def __init__(self):
+        JsRenderer.__init__(self)
+        self.ctx = []           # enclosing "loop" / "switch" constructs of the function being rendered, innermost last
+
+    def inside(self, kind, ind, nodes):
+        self.ctx.append(kind)
+        self.block(ind, nodes)
+        self.ctx.pop()
+
+    def node(self, ind, n):
+        k = n[0]
+        if k == "s":
+            self.emit(ind, f"out({self.const()});")
+        elif k == "if":
+            self.emit(ind, f"if ($d[{n[1]}]) {{")
+            self.block(ind + 1, n[2])
+            if n[3] is not None:
+                self.emit(ind, "} else {")
+                self.block(ind + 1, n[3])
+            self.emit(ind, "}")
+        elif k == "while":
+            c = f"$k{n[1]}"
+            self.emit(ind, f"{c} = 0;")
+            self.emit(ind, f"while ({c} < $d[{n[1]}]) {{")
+            self.emit(ind + 1, f"{c} = {c} + 1;")
+            self.inside("loop", ind + 1, n[2])
+            self.emit(ind, "}")
+        elif k == "for":
+            j = f"$j{n[1]}"
+            self.emit(ind, f"for ({j} = 0; {j} < $d[{n[1]}]; {j}++) {{")
+            self.inside("loop", ind + 1, n[2])
+            self.emit(ind, "}")
+        elif k == "forin":
+            self.emit(ind, f"foreach ($d[{n[1]}] as $e{n[1]}) {{")
+            self.inside("loop", ind + 1, n[2])
+            self.emit(ind, "}")
+        elif k == "dowhile":
+            c = f"$k{n[1]}"
+            self.emit(ind, f"{c} = 0;")
+            self.emit(ind, "do {")
+            self.emit(ind + 1, f"{c} = {c} + 1;")
+            self.inside("loop", ind + 1, n[2])
+            self.emit(ind, f"}} while ({c} < $d[{n[1]}]);")
+        elif k == "break":
+            self.emit(ind, "break;")
+        elif k == "continue":
+            # PHP counts a switch as a looping structure for `continue`: name the level of the loop it belongs to
+            lvl = 1
+            for c in reversed(self.ctx):
+                if c == "loop":
+                    break
+                lvl += 1
+            self.emit(ind, "continue;" if lvl == 1 else f"continue {lvl};")
+        elif k == "return":
+            self.emit(ind, f"return {self.const()};")
+        elif k == "try":
+            self.emit(ind, "try {")
+            pos = (n[1] * 7 + len(n[2])) % (len(n[2]) + 1)
+            if any(x[0] in ("break", "continue", "return") for x in n[2][:pos]):
+                pos = 0
+            for x in n[2][:pos]:
+                self.node(ind + 1, x)
+            self.emit(ind + 1, f"if ($d[{n[1]}]) {{")
+            self.emit(ind + 2, 'throw new Exception("e");')
+            self.emit(ind + 1, "}")
+            for x in n[2][pos:]:
+                self.node(ind + 1, x)
+            self.emit(ind, "} catch (Exception $ex) {")
+            self.block(ind + 1, n[3])
+            if n[5] is not None:
+                self.emit(ind, "} finally {")
+                self.block(ind + 1, n[5])
+            self.emit(ind, "}")
+        elif k == "switch":
+            self.emit(ind, f"switch ($d[{n[1]}]) {{")
+            self.ctx.append("switch")
+            for ci, body in enumerate(n[2]):
+                self.emit(ind + 1, f"case {ci}:")
+                self.block(ind + 2, body)
+                if n[4][ci] and not (body and body[-1][0] in ("return", "continue", "break")):
+                    self.emit(ind + 2, "break;")
+            if n[3] is not None:
+                self.emit(ind + 1, "default:")
+                self.block(ind + 2, n[3])
+            self.ctx.pop()
+            self.emit(ind, "}")
+        elif k == "func":
+            self.fn += 1
+            saved, self.ctx = self.ctx, []
+            # PHP functions do not see the variables of the enclosing function: the decision vector is passed on
+            # (the JavaScript twin reads the captured, never modified, d)
+            if self.fn % 2:
+                name = f"inner{self.fn}"
+                self.emit(ind, f"function {name}($d) {{")
+                self.block(ind + 1, n[1])
+                self.emit(ind, "}")
+            else:
+                name = f"$inner{self.fn}"
+                self.emit(ind, f"{name} = function ($d) {{")
+                self.block(ind + 1, n[1])
+                self.emit(ind, "};")
+            self.ctx = saved
+            self.emit(ind, f"{name}($d);")
+        elif k == "class":
+            self.fn += 1
+            self.emit(ind, f"class Q{self.fn} {{")
+            self.emit(ind + 1, f"function m() {{ return {self.const()}; }}")
+            self.emit(ind, "}")
+        else:
+            raise AssertionError(k)
+
+    def render(self, skel):
+        self.emit(0, "<?php")
+        self.emit(0, "function main($d) {")
+        self.block(1, skel.body)
+        self.emit(0, "}")
+        return "\n".join(self.lines) + "\n"
+
+
+class GoRenderer(JsRenderer):
+    """Go has no exceptions, no do-while and no class declarations inside functions: use only=GO_KINDS. The decisions are
+    read from d []int; the sequences iterated by range loops from a [][]int (same index). A function that falls off its
+    end returns 0 (JavaScript: undefined)."""
+    ext = "go"
+    lang = "go"
+    twin = "javascript"
+    entry = "run"
+    ret_none = 0
+
+    def node(self, ind, n):
+        k = n[0]
+        if k == "s":
+            self.emit(ind, f"out({self.const()})")
+        elif k == "if":
+            self.emit(ind, f"if d[{n[1]}] != 0 {{")
+            self.block(ind + 1, n[2])
+            if n[3] is not None:
+                self.emit(ind, "} else {")
+                self.block(ind + 1, n[3])
+            self.emit(ind, "}")
+        elif k == "while":
+            c = f"k{n[1]}"
+            self.emit(ind, f"{c} := 0")
+            self.emit(ind, f"for {c} < d[{n[1]}] {{")
+            self.emit(ind + 1, f"{c} = {c} + 1")
+            self.block(ind + 1, n[2])
+            self.emit(ind, "}")
+        elif k == "for":
+            j = f"j{n[1]}"
+            self.emit(ind, f"for {j} := 0; {j} < d[{n[1]}]; {j}++ {{")
+            self.block(ind + 1, n[2])
+            self.emit(ind, "}")
+        elif k == "forin":
+            self.emit(ind, f"for _, e{n[1]} := range a[{n[1]}] {{")
+            self.emit(ind + 1, f"_ = e{n[1]}")
+            self.block(ind + 1, n[2])
+            self.emit(ind, "}")
+        elif k in ("break", "continue"):
+            self.emit(ind, k)
+        elif k == "return":
+            self.emit(ind, f"return {self.const()}")
+        elif k == "switch":
+            self.emit(ind, f"switch d[{n[1]}] {{")
+            last_clause = len(n[2]) - 1 if n[3] is None else len(n[2])
+            for ci, body in enumerate(n[2]):
+                self.emit(ind, f"case {ci}:")
+                self.block(ind + 1, body)
+                ends_in_jump = bool(body) and body[-1][0] in ("return", "continue", "break")
+                if not n[4][ci] and not ends_in_jump and ci < last_clause:
+                    self.emit(ind + 1, "fallthrough")       # JavaScript: no break, control falls into the next clause
+            if n[3] is not None:
+                self.emit(ind, "default:")
+                self.block(ind + 1, n[3])
+            self.emit(ind, "}")
+        elif k == "func":
+            self.fn += 1
+            name = f"inner{self.fn}"
+            self.emit(ind, f"{name} := func() int {{")
+            self.block(ind + 1, n[1])
+            self.emit(ind + 1, "return 0")
+            self.emit(ind, "}")
+            self.emit(ind, f"{name}()")
+        elif k == "class":
+            self.fn += 1
+            self.const()                                     # the JavaScript class body holds one constant
+            self.emit(ind, f"type Q{self.fn} struct {{")
+            self.emit(ind + 1, "x int")
+            self.emit(ind, "}")
+        else:
+            raise AssertionError(k)
+
+    def render(self, skel):
+        self.emit(0, "package main")
+        self.emit(0, "")
+        self.emit(0, "func run(d []int, a [][]int) int {")
+        self.block(1, skel.body)
+        self.emit(1, "return 0")
+        self.emit(0, "}")
+        return "\n".join(self.lines).replace("    ", "\t") + "\n"
+
+    def conv_args(self, v, skel):
+        fi = set(self.forin_indexes(skel.body))
+        return [[0 if i in fi else x for i, x in enumerate(v)], [list(range(x)) if i in fi else [] for i, x in enumerate(v)]]
+
+
+class PhpDuRenderer(_DuMixin, PhpRenderer):
+    def php(self, t):
+        return __import__("re").sub(r"\bv(\d)\b", r"$v\1", t)
+
+    def node(self, ind, n):
+        if n[0] == "s":
+            self.emit(ind, self.php(self.du_stmt()) + ";")
+        else:
+            PhpRenderer.node(self, ind, n)
+
+    def render(self, skel):
+        self.du_init(__import__("zlib").crc32(skel.label.encode()))
+        self.emit(0, "<?php")
+        self.emit(0, "function main($d) {")
+        for i in range(self.NV):
+            self.emit(1, f"$v{i} = {self.const()};")
+        self.block(1, skel.body)
+        for i in range(self.NV):
+            self.emit(1, f"out($v{i});")
+        self.emit(0, "}")
+        return "\n".join(self.lines) + "\n"
+
+
+class GoDuRenderer(_DuMixin, GoRenderer):
+    def node(self, ind, n):
+        if n[0] == "s":
+            self.emit(ind, self.du_stmt())
+        else:
+            GoRenderer.node(self, ind, n)
+
+    def render(self, skel):
+        self.du_init(__import__("zlib").crc32(skel.label.encode()))
+        self.emit(0, "package main")
+        self.emit(0, "")
+        self.emit(0, "func run(d []int, a [][]int) int {")
+        for i in range(self.NV):
+            self.emit(1, f"v{i} := {self.const()}")
+        self.block(1, skel.body)
+        for i in range(self.NV):
+            self.emit(1, f"out(v{i})")
+        self.emit(1, "return 0")
+        self.emit(0, "}")
+        return "\n".join(self.lines).replace("    ", "\t") + "\n"
+
+
+GO_KINDS = ("s", "if", "while", "for", "forin", "break", "continue", "return", "switch", "func", "class")
+# node kinds a language can express with the meaning of the JavaScript rendering (None = all of the skeleton language)
+LANG_KINDS = {"go": GO_KINDS}
+
+RENDERERS = {"python": PyRenderer, "javascript": JsRenderer, "java": JavaRenderer, "c": CRenderer,
+             "typescript": TsRenderer, "php": PhpRenderer, "go": GoRenderer}
+DU_RENDERERS = {"python": PyDuRenderer, "javascript": JsDuRenderer, "typescript": TsDuRenderer, "php": PhpDuRenderer, "go": GoDuRenderer}
